@@ -258,8 +258,9 @@ func (f *fnCFG) nodePos(target ast.Node) (cfgPos, bool) {
 			continue
 		}
 		for i, n := range b.Nodes {
-			if n.Pos() <= target.Pos() && target.End() <= n.End() {
-				if l := n.End() - n.Pos(); bestLen < 0 || l < bestLen {
+			if within(n, target) {
+				nl, nh := spanOf(n)
+				if l := nh - nl; bestLen < 0 || l < bestLen {
 					best, bestLen = cfgPos{b, i}, l
 				}
 			}
@@ -518,4 +519,36 @@ func srcOf(n ast.Node) string {
 		return ""
 	}
 	return strings.Join(strings.Fields(buf.String()), " ")
+}
+
+// spanOf returns the true source extent of n.  After canonicalComparisons swapped the operands of a comparison
+// the node's own Pos/End are no longer its extent, so containment tests use the extent of the leaves.
+func spanOf(n ast.Node) (lo, hi token.Pos) {
+	lo, hi = n.Pos(), n.End()
+	ast.Inspect(n, func(x ast.Node) bool {
+		if x == nil {
+			return false
+		}
+		switch x.(type) {
+		case *ast.Ident, *ast.BasicLit:
+			if x.Pos() < lo {
+				lo = x.Pos()
+			}
+			if x.End() > hi {
+				hi = x.End()
+			}
+		}
+		return true
+	})
+	if lo > hi {
+		lo, hi = hi, lo
+	}
+	return
+}
+
+// within reports whether inner lies inside outer (by true extents).
+func within(outer, inner ast.Node) bool {
+	ol, oh := spanOf(outer)
+	il, ih := spanOf(inner)
+	return ol <= il && ih <= oh
 }
